@@ -54,48 +54,138 @@ func runAG(c *Ctx) (obls []Obl) {
 	exprHome = fn.Pkg.Pkg
 	all := naturalLoops(fn)
 	outer := outermostLoops(all)
-	if len(outer) != 2 || len(all) != 3 {
+	// fn1: the function holding the find-or-create loop: Aggregate itself, or
+	// a helper Aggregate calls once, outside any loop, for the bucket map
+	fn1 := fn
+	var l1, l2 *loopInfo
+	var helperCall *ssa.Call
+	switch {
+	case len(outer) == 2 && len(all) == 3:
+		l1, l2 = outer[0], outer[1]
+	case len(outer) == 1 && len(all) == 1:
+		for _, b := range fn.Blocks {
+			if all[0].Body[b] {
+				continue
+			}
+			for _, in := range b.Instrs {
+				call, ok := in.(*ssa.Call)
+				if !ok {
+					continue
+				}
+				g := call.Call.StaticCallee()
+				if g == nil || g.Pkg != fn.Pkg || g.Blocks == nil {
+					continue
+				}
+				if _, isMap := call.Type().Underlying().(*types.Map); !isMap {
+					continue
+				}
+				ga := naturalLoops(g)
+				if go1 := outermostLoops(ga); len(go1) == 1 && len(ga) == 2 {
+					if helperCall != nil {
+						a.und("AG-once", "Aggregate/loops", "more than one helper builds a map", in.Pos())
+						return obls
+					}
+					helperCall, fn1, l1, l2 = call, g, go1[0], all[0]
+				}
+			}
+		}
+	}
+	if l1 == nil {
 		a.und("AG-once", "Aggregate/loops", fmt.Sprintf("expected the find-or-create loop (with its lookup loop) and the collect loop, found %d outer / %d loops", len(outer), len(all)), fn.Pos())
 		return obls
 	}
-	// all map ranges and updates use the same map
-	var theMap ssa.Value
-	for _, b := range fn.Blocks {
-		for _, in := range b.Instrs {
-			if mm, ok := in.(*ssa.MakeMap); ok {
-				if theMap != nil {
-					a.und("AG-once", "Aggregate/one-map", "more than one map is created", in.Pos())
-				}
-				theMap = mm
+	levelOf := func(f *ssa.Function) string {
+		for _, p := range f.Params {
+			if strings.HasSuffix(p.Type().String(), "stack.Similarity") {
+				return p.Name()
 			}
 		}
-	}
-	for _, b := range fn.Blocks {
-		for _, in := range b.Instrs {
-			switch in := in.(type) {
-			case *ssa.Range:
-				if _, ok := in.X.Type().Underlying().(*types.Map); ok && in.X != theMap {
-					a.bad("AG-once", "Aggregate/one-map", "a range is over another map than the bucket map", in.Pos())
-				}
-			case *ssa.MapUpdate:
-				if in.Map != theMap {
-					a.bad("AG-once", "Aggregate/one-map", "an update goes to another map than the bucket map", in.Pos())
-				}
-			}
-		}
-	}
-	if theMap != nil {
-		a.ok("AG-once", "Aggregate/one-map", "lookup, insertion, deletion and collection all use the one bucket map", fn.Pos())
-	}
-	levelParam := ""
-	if len(fn.Params) == 2 {
-		levelParam = fn.Params[1].Name()
+		return ""
 	}
 	recv := fn.Params[0].Name()
+	if helperCall != nil {
+		// the helper is given the receiver's goroutines and the caller's level, unchanged
+		okG, okL := false, false
+		for _, arg := range helperCall.Call.Args {
+			if ld, ok := arg.(*ssa.UnOp); ok && ld.Op == token.MUL {
+				if fa, ok := ld.X.(*ssa.FieldAddr); ok && addrLast(fa) == "Goroutines" {
+					if pr, ok := fa.X.(*ssa.Parameter); ok && pr.Name() == recv {
+						okG = true
+					}
+				}
+			}
+			if pr, ok := arg.(*ssa.Parameter); ok && pr.Name() == levelOf(fn) && levelOf(fn) != "" {
+				okL = true
+			}
+			if pr, ok := arg.(*ssa.Parameter); ok && pr.Name() == recv {
+				okG = true // the whole snapshot is handed over
+			}
+		}
+		if okG && okL {
+			a.ok("AG-level", "Aggregate/helper-args", "the grouping helper receives the snapshot's goroutines and the caller's similarity level unchanged", helperCall.Pos())
+		} else {
+			a.bad("AG-level", "Aggregate/helper-args", fmt.Sprintf("the grouping helper is not called with the receiver's goroutines (ok=%v) and the caller's level (ok=%v)", okG, okL), helperCall.Pos())
+		}
+	}
+	// all map ranges and updates use the same map
+	mapFns := []*ssa.Function{fn}
+	if fn1 != fn {
+		mapFns = []*ssa.Function{fn1, fn}
+	}
+	for _, f := range mapFns {
+		var theMap ssa.Value
+		if f == fn && helperCall != nil {
+			theMap = helperCall
+		}
+		for _, b := range f.Blocks {
+			for _, in := range b.Instrs {
+				if mm, ok := in.(*ssa.MakeMap); ok {
+					if theMap != nil {
+						a.und("AG-once", "Aggregate/one-map", "more than one map is created", in.Pos())
+					}
+					theMap = mm
+				}
+			}
+		}
+		for _, b := range f.Blocks {
+			for _, in := range b.Instrs {
+				switch in := in.(type) {
+				case *ssa.Range:
+					if _, ok := in.X.Type().Underlying().(*types.Map); ok && in.X != theMap {
+						a.bad("AG-once", "Aggregate/one-map", "a range is over another map than the bucket map", in.Pos())
+					}
+				case *ssa.MapUpdate:
+					if in.Map != theMap {
+						a.bad("AG-once", "Aggregate/one-map", "an update goes to another map than the bucket map", in.Pos())
+					}
+				case *ssa.Return:
+					if f == fn1 && fn1 != fn && (len(in.Results) != 1 || in.Results[0] != theMap) {
+						a.bad("AG-once", "Aggregate/one-map", "the grouping helper does not return the bucket map it filled", in.Pos())
+					}
+				}
+			}
+		}
+		if theMap != nil && f == fn {
+			a.ok("AG-once", "Aggregate/one-map", "lookup, insertion, deletion and collection all use the one bucket map", fn.Pos())
+		}
+	}
+	levelParam := levelOf(fn1)
+	// every return of Aggregate comes after the collect loop: no path hands
+	// out a result that bypasses grouping and collection
+	for _, b := range fn.Blocks {
+		for _, in := range b.Instrs {
+			if ret, ok := in.(*ssa.Return); ok {
+				if l2.Header.Dominates(b) {
+					a.ok("AG-back", "Aggregate/all-returns", "every return comes after the collect loop", ret.Pos())
+				} else {
+					a.bad("AG-back", "Aggregate/all-returns", "a return of Aggregate bypasses the grouping and collect loops: its result is not the aggregation of the receiver (it need not refer back to the snapshot, nor hold its buckets)", ret.Pos())
+				}
+			}
+		}
+	}
 
-	l1, l2 := outer[0], outer[1]
-	seed := seedStraight(fn, l1.Header)
-	seg := &SPE{Fn: fn, Start: l1.Header, MaxVisits: 3, SeedEnv: seed}
+	seed := seedStraight(fn1, l1.Header)
+	seg := &SPE{Fn: fn1, Start: l1.Header, MaxVisits: 3, SeedEnv: seed}
 	seg.Stop = func(from, to *ssa.BasicBlock) bool {
 		return (to == l1.Header && l1.Body[from]) || (l1.Body[from] && !l1.Body[to])
 	}
@@ -106,7 +196,7 @@ func runAG(c *Ctx) (obls []Obl) {
 	isMerge := isCallTo(stackPkg, "(*Signature).merge")
 	nIter := 0
 	for _, p := range seg.Paths {
-		pos := pathPos(p, fn)
+		pos := pathPos(p, fn1)
 		if !(p.Term == "stop" && p.End == l1.Header) {
 			continue // leaves the loop: no goroutine handled
 		}
@@ -114,7 +204,7 @@ func runAG(c *Ctx) (obls []Obl) {
 		// the goroutine of this iteration
 		var routine *Expr
 		for _, ev := range p.Events {
-			if ev.Kind == EvIndex && strings.HasSuffix(ev.Addr.String(), ".Goroutines") {
+			if ev.Kind == EvIndex && (strings.HasSuffix(ev.Addr.String(), ".Goroutines") || (ev.Addr.Type != nil && strings.HasSuffix(ev.Addr.Type.String(), "stack.Goroutine") && strings.HasPrefix(ev.Addr.Type.String(), "[]*"))) {
 				routine = &Expr{Op: OpUn, Tok: token.MUL, Args: []*Expr{{Op: OpIndexAddr, Args: []*Expr{ev.Addr, ev.Val}}}}
 				break
 			}
